@@ -100,18 +100,21 @@ Definition lit_mInfinity : str := Eval cbv in str_of "-Infinity".
 (** [str::parse::<f64>()] (core::num::dec2flt): an optional sign, then "inf" / "infinity" / "nan"
     in any letter case, or digits with an optional fraction and an optional exponent, at least
     one digit in the mantissa; nothing else (no white space).  The value is correctly rounded. *)
+Definition rust_sign (s : str) : bool * str :=
+  match s with
+  | c :: t => if c =? 45 then (true, t) else if c =? 43 then (false, t) else (false, s)
+  | [] => (false, s)
+  end.
+
 Definition rust_parse_f64 (s : str) : option f64 :=
-  let '(neg, s1) := match s with
-                    | 45 :: t => (true, t)
-                    | 43 :: t => (false, t)
-                    | _ => (false, s)
-                    end in
+  let '(neg, s1) := rust_sign s in
   let low := map rs_lower s1 in
   if str_eqb low lit_inf || str_eqb low lit_infinity then Some (S754_infinity neg)
   else if str_eqb low lit_nan then Some S754_nan
   else
     let '(ip, s2) := span rs_is_ascii_digit s1 in
-    let '(fp, s3) := match s2 with 46 :: t => span rs_is_ascii_digit t | _ => ([], s2) end in
+    let '(dot, s2') := strip_char 46 s2 in
+    let '(fp, s3) := if dot then span rs_is_ascii_digit s2' else ([], s2) in
     match ip ++ fp with
     | [] => None
     | _ :: _ =>
@@ -121,11 +124,7 @@ Definition rust_parse_f64 (s : str) : option f64 :=
         | [] => Some (f64_of_decimal neg D k0)
         | e :: s4 =>
             if (e =? 101) || (e =? 69) then
-              let '(eneg, s5) := match s4 with
-                                 | 45 :: t => (true, t)
-                                 | 43 :: t => (false, t)
-                                 | _ => (false, s4)
-                                 end in
+              let '(eneg, s5) := rust_sign s4 in
               let '(ed, s6) := span rs_is_ascii_digit s5 in
               match ed, s6 with
               | _ :: _, [] =>
